@@ -165,6 +165,10 @@ def cases(tier, seed):
                                 # the same loads entered AFTER read-only queries (displaced-configuration coordinates and normals, point
                                 # location) that warm the geometric caches in another order
                                 add(dict(c, prequery=True))
+                            if sim == "elastic" and var[0] == "T" and var[5] == "generic" and not mixed:
+                                # the loads are entered, the nodes are then re-coordinated (non-isometric affine map) and the loads entered again:
+                                # every integral is taken on the current geometry
+                                add(dict(c, restretch=True))
     # beams
     for bsim in ("beam_eb", "beam_timo"):
         for et in Z.TYPES_1D:
@@ -527,9 +531,22 @@ def _trials(cx, nvar, q_res, p_nodal, stride_one):
 # ------------------------------------------------------------------------------------------------
 def _run_continuum(case):
     sim, load, t = case["sim"], case["load"], case["t"]
-    mesh, regs, d = _build_continuum(case)
-    simu, unknowns, kw, pt_obs = _make_sim(sim, mesh, d, t)
-    mesh = simu.mesh
+    if case.get("restretch"):
+        mesh, _, d = _build_continuum(dict(case, map="identity"))
+        simu, unknowns, kw, pt_obs = _make_sim(sim, mesh, d, t)
+        mesh = simu.mesh
+        every = np.arange(mesh.Nn)
+        # first use on the unmapped template: one load of each kind the mesh can carry (warms whatever the library keeps per element group)
+        for nm in ("lineLoad", "surfLoad", "volumeLoad"):
+            if _load_dim(nm, d) <= d and mesh.Get_list_groupElem(_load_dim(nm, d)):
+                getattr(simu, "add_" + nm)(every, [1.0] * len(unknowns), list(unknowns))
+        simu.Bc_Init()
+        mesh2, regs, _ = _build_continuum(case)
+        mesh.coord = np.array(mesh2.coord, dtype=float)
+    else:
+        mesh, regs, d = _build_continuum(case)
+        simu, unknowns, kw, pt_obs = _make_sim(sim, mesh, d, t)
+        mesh = simu.mesh
     if case.get("prequery"):
         from EasyFEA.FEM._utils import MatrixType
 
@@ -571,6 +588,8 @@ def _run_continuum(case):
                   mesh=f"{case['src']}{case['poly']}k{case['k']}d{int(case['distort'])}g{case['diag']}{case['map'][0]}", thick=(t != 1.0))
     if case.get("prequery"):
         cx.key["prequery"] = True
+    if case.get("restretch"):
+        cx.key["restretch"] = True
     stride_one = bool(case.get("every_direction", False))
     vio = []
     nontrivial = False
